@@ -475,6 +475,11 @@ def run_instance(body, params=None, label='', max_paths=256, max_depth=64,
                         res, model = 'unsat', None
                 if res is None:
                     res, model = core.prove(list(p.pc) + hyps, cl.expr, timeout_ms)
+                    if res == 'unknown' and cl.core:
+                        # one retry with four times the budget (solver time-outs depend on the machine load; a claim that
+                        # stays undecided is reported as inconclusive, never as held)
+                        res, model = core.prove(list(p.pc) + hyps, cl.expr, 4 * (timeout_ms or 60000))
+                        rec['retries'] = rec.get('retries', 0) + 1
             if res == 'unsat':
                 proved_ids.add(cl.expr.get_id())
                 keep.append(cl.expr)
